@@ -232,7 +232,7 @@ def run(cx):
         resp = arg_origin(wr[0], 1, o)
         # the response is the select! output of the branch that polls the oneshot future
         var = [x for x in walk(resp) if x[0] == "variant" and x[2].startswith("_")]
-        rs = strip_identity(resp)
+        rs = deep_payload(resp)          # `Ok(x)?` round trips of an extracted helper are looked through
         # the written value must BE the unwrapped select output (not a phi / rebuilt response)
         ok = bool(var) and rs[0] == "call" and name_matches(rs[1], ("Result::expect", "Result::unwrap", "Result::into_ok", "Result::unwrap_or_else"))
         if ok:
